@@ -483,14 +483,24 @@ def rule_quote(ctx):
         return I.call(I.global_lookup("info_schema", "insert_table_comment_sql"),
                       [Sym("CAT", typ="str", truthy=True), Sym("SCH", typ="str", truthy=True), Sym("TBL", typ="str", truthy=True),
                        Sym("FREE_TEXT", typ="str", truthy=True)], {}, None)
+    n_free = 0
     for p in explore(prog, Hooks, run, max_paths=8):
         toks = sqlt.tokenize(p.value)
         for t in toks:
             if t.kind != "str":
+                # the free text anywhere else (bare, dollar-quoted, in a comment ...) has no escaping that is safe for every value
+                for h in (t.holes() if hasattr(t, "holes") else []):
+                    if "FREE_TEXT" in tagof(h):
+                        n_free += 1
+                        ctx.ob("C09.e", "table comment text is embedded as a single-quoted literal", False, m.loc(fn), f"{t.kind} token")
+                        ctx.violation("C09.e", "info_schema", "insert_table_comment_sql", "comment text outside a single-quoted literal", m.loc(fn),
+                                      "the comment text is spliced into the bookkeeping statement outside a single-quoted literal (e.g. between $$ … $$): "
+                                      "a value containing the delimiter ends the literal early and the rest is executed as SQL")
                 continue
             for h in t.holes():
                 if "FREE_TEXT" not in tagof(h):
                     continue
+                n_free += 1
                 escaped = isinstance(h, Sym) and h.origin and h.origin[0] == "method" and h.origin[2] == "replace" and \
                     [getattr(a, "v", None) for a in h.origin[3]] == ["'", "''"]
                 ctx.ob("C09.e", "table comment text has its single quotes doubled before being placed in a literal", bool(escaped), m.loc(fn), tagof(h))
@@ -498,6 +508,7 @@ def rule_quote(ctx):
                     ctx.violation("C09.e", "info_schema", "insert_table_comment_sql", "'{comment}' without quote doubling", m.loc(fn),
                                   "the comment text is placed between single quotes as is: a comment containing a quote (`comment = 'it''s'`) "
                                   "breaks the bookkeeping statement (raw ParserException after the table was created)")
+    ctx.floor("C09.e occurrences of the comment text in the generated statement", n_free, 1)
 
 
 VIEW_TYPE_ORACLE = {"BIGINT": "NUMBER", "VARCHAR": "TEXT", "DOUBLE": "FLOAT", "BLOB": "BINARY", "TIMESTAMP": "TIMESTAMP_NTZ",
@@ -620,6 +631,51 @@ def rule_no_phantom_comment(ctx):
                           f"information_schema.tables reports the string 'None' as the table's comment")
 
 
+def rule_views_session_independent(ctx):
+    """C09.k: the per-database views fakesnow creates describe their own database whoever queries them: their bodies call no
+    session-dependent function (current_database() ...), and a body that reads a catalog-wide duckdb_* view filters it by the
+    database the view was created for."""
+    prog = ctx.prog
+    m = prog.mod("info_schema")
+    if not prog.has_fn("info_schema", "creation_sql"):
+        return
+    fn = prog.fn("info_schema", "creation_sql")
+
+    def run(I):
+        return I.call(I.global_lookup("info_schema", "creation_sql"), [Sym("CAT", typ="str", truthy=True)], {}, None)
+
+    n = 0
+    for p in explore(prog, Hooks, run, max_paths=4):
+        if p.outcome != "return":
+            continue
+        for st in sqlt.split_statements(sqlt.tokenize(p.value)):
+            c = sqlt.classify(st)
+            if c.get("kind") != "create" or c.get("what") != "VIEW":
+                continue
+            n += 1
+            name = ".".join(t.text for t in (c.get("name") or []))
+            words = [t.up for t in st if t.kind == "word"]
+            dep = sorted({w for w in words if w in ("CURRENT_DATABASE", "CURRENT_SCHEMA", "CURRENT_SCHEMAS", "CURRENT_CATALOG", "CURRENT_SETTING", "CURRENT_USER")})
+            ctx.ob("C09.k", f"view {name}: body does not depend on the querying session", not dep, m.loc(fn), str(dep))
+            if dep:
+                ctx.violation("C09.k", "info_schema", "creation_sql", f"view {name.split('.')[-1]} calls {dep[0].lower()}()", m.loc(fn),
+                              f"the view `{name}` calls {', '.join(d.lower() + '()' for d in dep)}: what it lists follows the current database of whoever "
+                              f"queries it, so `<db2>.information_schema.…` asked from a session on db1 describes db1 and disagrees with the other views")
+            srcs = [".".join(t.text.lower() for t in nm) for nm in sqlt.from_tables(st)]
+            # the relation the view lists (joined relations are tied to it by their ON conditions)
+            wide = [x for x in srcs[:1] if x.startswith("duckdb_") and x.split("(")[0] in ("duckdb_views", "duckdb_tables", "duckdb_columns", "duckdb_constraints")]
+            if wide:
+                txt = " ".join((p.value.text() if isinstance(p.value, Str) else str(p.value.v)).split())
+                seg = txt[txt.find(name.split(".")[-1]):]
+                seg = seg[:seg.find(";")] if ";" in seg else seg
+                ok = bool(re.search(r"database_name\s*={1,2}\s*'\{CAT\}'", seg))
+                ctx.ob("C09.k", f"view {name}: rows of {wide[0]} are restricted to the view's own database", ok, m.loc(fn))
+                if not ok:
+                    ctx.violation("C09.k", "info_schema", "creation_sql", f"view {name.split('.')[-1]}: {wide[0]} not filtered by its own database", m.loc(fn),
+                                  f"the view `{name}` reads `{wide[0]}` (every attached database) without `database_name = '<its database>'`")
+    ctx.floor("C09.k per-database views", n, 3)
+
+
 def rule_comment_not_sticky(ctx):
     """C09.j: "table comments as most recently declared" — the (table, comment) pair travels on the statement that declared
     it only: a stage that attaches it to a module-level constant statement makes every later statement that is rewritten
@@ -635,6 +691,7 @@ RULES = [
     ("C09.g", rule_precision_pattern, ("quick", "thorough")),
     ("C09.f", rule_no_phantom_comment, ("quick", "thorough")),
     ("C09.j", rule_comment_not_sticky, ("quick", "thorough")),
+    ("C09.k", rule_views_session_independent, ("quick", "thorough")),
     ("C09.h", rule_type_names, ("quick", "thorough")),
     ("C09.i", rule_bookkeeping_names, ("quick", "thorough")),
     ("C09.a", rule_hidden, ("quick", "thorough")),
